@@ -366,7 +366,9 @@ func lsRunSystem(s *Stream, sys *lsSystem, idx int) {
 	}
 	kind := sys.Kind
 	w := &lsProbeWriter{}
-	opts := logger.NewOptions(slog.Level(sys.Threshold), sys.Colorful, false)
+	// every third system reports the call site: the lines then also depend on per-call state
+	// (program counter -> file:line) that must not leak between concurrently logging goroutines
+	opts := logger.NewOptions(slog.Level(sys.Threshold), sys.Colorful, idx%3 == 1)
 	var rootH logger.Handler
 	switch kind {
 	case "json":
